@@ -149,6 +149,11 @@ NC_reset_maxopenfiles(int req_max)
         /* The requested max can be less than the current max */
         alloc_size = req_max;
 
+    /* File ids are indices into this list: every open file must keep its slot,
+       so the list cannot become shorter than the highest slot in use */
+    if (alloc_size < _ncdf)
+        alloc_size = _ncdf;
+
     /* Allocate a new list */
     newlist = malloc(sizeof(NC *) * (size_t)alloc_size);
 
@@ -166,9 +171,8 @@ NC_reset_maxopenfiles(int req_max)
 
     /* Transfer all non-NULL pointers over to the new list and deallocate the
        old list of pointers */
-    for (old_idx = 0, new_idx = 0; old_idx < _cdfs_size && new_idx < alloc_size; old_idx++)
-        if (_cdfs[old_idx] != NULL)
-            newlist[new_idx++] = _cdfs[old_idx];
+    for (old_idx = 0, new_idx = 0; old_idx < _cdfs_size && new_idx < alloc_size; old_idx++, new_idx++)
+        newlist[new_idx] = _cdfs[old_idx];
     free(_cdfs);
 
     /* Set _cdfs to the new list */
